@@ -61,6 +61,14 @@ def cases(tier, seed):
     dss = list(dss) + [dict(dss[0], variant='unbalanced',
                             d=5 if tier == 'quick' else 8,
                             seed=dss[0]['seed'] + 17)]
+    # d + 1 classes whose means lie in a common hyperplane (between-class
+    # scatter of rank d - 1): supervised learners that run a discriminant
+    # analysis get fewer directions than classes - 1
+    for dd_ in ((3, 2) if tier == 'quick' else (2, 3, 4, 3, 2, 4)):
+      dss.append(dict(dss[0], variant='coplanar', d=dd_, classes=dd_ + 1,
+                      seed=dss[0]['seed'] + 31 * dd_ + len(dss)))
+      dss.append(dict(dss[0], variant='illcond5', d=dd_, classes=dd_ + 1,
+                      seed=dss[0]['seed'] + 37 * dd_ + len(dss)))
     for di, ds in enumerate(dss):
       full = configs.product(name, ds['d'], ds['classes'])
       if tier == 'quick':
